@@ -267,7 +267,9 @@ class AttributeModel:
             return meta_path(deref(v.f['meta']))
         if name == 'parse_nested_meta':
             return attr_parse_nested_meta(i, v, a[0])
-        if name == 'parse_args' or name == 'parse_args_with':
+        if name == 'parse_args_with':
+            return attr_parse_args_with(i, v, a[0])
+        if name == 'parse_args':
             raise Inconclusive('Attribute::%s is not modelled' % name)
         if name == 'to_token_stream':
             raise Inconclusive('Attribute::to_token_stream')
@@ -339,6 +341,33 @@ def attr_parse_nested_meta(interp, attr, logic):
     if _buf_empty(b):
         return Ok(())
     return nested_meta_loop(interp, b, logic)
+
+
+def attr_parse_args_with(interp, attr, parser):
+    """Attribute::parse_args_with for the one parser shape attribute code uses: Punctuated::<Path, Token![,]>::parse_terminated
+    (a comma separated list of paths, trailing comma allowed).  Anything else is outside the model."""
+    f = deref(parser)
+    pname = None
+    if isinstance(f, V.FnRef):
+        pname = f.path[-1] if getattr(f, 'path', None) else None
+    if pname != 'parse_terminated':
+        raise Inconclusive('Attribute::parse_args_with(%r) is not modelled' % (f,))
+    meta = deref(attr.f['meta'])
+    if meta.var != 'List':
+        return syn_err('expected attribute arguments in parentheses')
+    b = _buf(deref(deref(meta.vals[0]).f['tokens']).f['items'].v)
+    out = []
+    while not _buf_empty(b):
+        path = _parse_meta_path(b)
+        if path is None:
+            return syn_err('expected path')
+        out.append(path)
+        if _buf_empty(b):
+            break
+        if not _is_punct(b.f['items'][b.f['pos']], ','):
+            return syn_err('expected `,`')
+        b.f['pos'] += 1
+    return Ok(Vec(out, 'Punctuated'))
 
 
 class ParseNestedMetaModel:
